@@ -44,6 +44,7 @@ enum {
   OP_HFILL,          /* a = heap slot, b = size: nine blocks (a full page of 8 plus one: the full page moves to the heap's full queue) */
   OP_THREAD_ALIGNED, /* a = size, b = alignment: helper thread allocates 2 aligned blocks, hands them to the model, exits (abandons) */
   OP_HALIGNED,       /* a = size, b = alignment: mi_heap_malloc_aligned from heap slot 1 (the arena-bound heap) */
+  OP_THREAD_HEAPS,   /* a = size: helper thread creates two heaps, allocates 2 blocks in the newer one, deletes the older one, exits */
   OP_LAST      /* new codes go before this line only: replay files carry the numbers */
 };
 
@@ -76,6 +77,7 @@ static void vf_op_str(vf_op_t op, char* buf, size_t n) {
     case OP_HFILL:        snprintf(buf, n, "heap_fill(h%ld,%ld)", op.a, op.b); break;
     case OP_THREAD_ALIGNED: snprintf(buf, n, "thread_alloc_aligned(%ld,%ld)", op.a, op.b); break;
     case OP_HALIGNED:     snprintf(buf, n, "heap_malloc_aligned(h1,%ld,%ld)", op.a, op.b); break;
+    case OP_THREAD_HEAPS: snprintf(buf, n, "thread_two_heaps_alloc(%ld)", op.a); break;
     case OP_AHEAP_NEW:    snprintf(buf, n, "heap_new_in_arena"); break;
     case OP_THREAD_ARENA: snprintf(buf, n, "thread_arena_alloc(%ld)", op.a); break;
     case OP_THREAD_MANY:  snprintf(buf, n, "thread_alloc(%ld x%ld)", op.a, op.b); break;
@@ -171,6 +173,8 @@ static const profile_t profiles[] = {
   /* P8h: huge blocks that span several arena blocks (40 MiB = 2, 100 MiB = 4): claims that re-use committed blocks together with
      never committed ones */
   { .name = "P8h", .msizes = { 40 * MiB, 100 * MiB }, .nm = 2, .collect1 = 1, .ticks = { 1000 }, .nt = 1, .maxlive = 2, .free_window = 2 },
+  /* P8g: from S11: release the three 3 MiB pages, allocate 9 MiB over the coalesced span, purge */
+  { .name = "P8g", .msizes = { 9 * MiB }, .nm = 1, .collect1 = 1, .maxlive = 5, .free_window = 4 },
   /* P8f: a full segment of 1 MiB pages (start state S10): release / re-use / purge at its far end */
   { .name = "P8f", .msizes = { 1 * MiB }, .nm = 1, .collect0 = 1, .collect1 = 1, .ticks = { 1000 }, .nt = 1, .maxlive = 40, .free_window = 4 },
   /* P8o: option sweep profile (C13): merged alphabet incl. clock ticks */
@@ -186,6 +190,7 @@ static void* helper_thread(void* a) {
   if (t->kind == 0) { mi_free(t->p); }
   else if (t->kind == 1) { t->out[0] = mi_malloc(t->size); t->out[1] = mi_malloc(t->size); }
   else if (t->kind == 2) { mi_heap_t* h = mi_heap_new_in_arena(g_arena); t->out[0] = (h ? mi_heap_malloc(h, t->size) : NULL); t->out[1] = (h ? mi_heap_malloc(h, t->size) : NULL); t->p = h; }
+  else if (t->kind == 5) { mi_heap_t* h1 = mi_heap_new(); mi_heap_t* h2 = mi_heap_new(); if (h1 && h2) { void* x = mi_heap_malloc(h1, t->size); t->out[0] = mi_heap_malloc(h2, t->size); t->out[1] = mi_heap_malloc(h2, t->size); mi_free(x); mi_heap_delete(h1); } }
   else if (t->kind == 4) { size_t al = (size_t)(uintptr_t)t->p; t->out[0] = mi_malloc_aligned(t->size, al); t->out[1] = mi_malloc_aligned(t->size, al); }
   else { /* kind 3: many blocks from the default heap; first and last stay live */
     void* tmp[64]; int n = (int)(uintptr_t)t->p; if (n > 64) n = 64;
@@ -699,6 +704,12 @@ static int vf_apply(vf_op_t op) {
       for (int k = 0; k < 2; k++) if (vf_model_alloc(t.out[k], (size_t)op.a, (size_t)op.b, 0, -1, 0, "mi_malloc_aligned[thread]") < 0) return 1;
       return 0;
     }
+    case OP_THREAD_HEAPS: {
+      targ_t t = { 5, NULL, (size_t)op.a, { 0, 0 } };
+      run_helper(&t);
+      for (int k = 0; k < 2; k++) if (vf_model_alloc(t.out[k], (size_t)op.a, 0, 0, -1, 0, "mi_heap_malloc[thread, second heap]") < 0) return 1;
+      return 0;
+    }
     case OP_THREAD_ALLOC: {
       targ_t t = { 1, NULL, (size_t)op.a, { 0, 0 } };
       run_helper(&t);
@@ -722,6 +733,7 @@ static int vf_list_ops(vf_op_t* out, int max) {
     for (int i = 0; i < P->nza; i++) PUSH(OP_ZALIGNED, P->zasizes[i][0], P->zasizes[i][1]);
     if (vf_nlive + (P->fillcount ? P->fillcount : 8) <= P->maxlive) for (int i = 0; i < P->nf; i++) PUSH(OP_FILL, P->fills[i], 0);
     if (P->thread_alloc) PUSH(OP_THREAD_ALLOC, P->msizes[0], 0);
+    if (P->thread_alloc) PUSH(OP_THREAD_HEAPS, P->msizes[0], 0);
     if (P->thread_alloc == 2) for (int i = 1; i < P->nm; i++) PUSH(OP_THREAD_ALLOC, P->msizes[i], 0);   /* helper threads allocate every size of the profile */
   }
   /* which live indices are addressed */
@@ -879,6 +891,13 @@ static int build_start(const char* s) {
     }
     return 0;
   }
+  if (strcmp(s, "S11") == 0) {
+    /* three adjacent 3 MiB pages and a guard block behind them in one segment: released in any order they coalesce into one span
+       that covers whole 4 MiB fields of the segment's commit / purge masks */
+    for (int k = 0; k < 3; k++) if (do_op(OP_MALLOC, 3 * MiB, 0)) return 1;
+    if (do_op(OP_MALLOC, 1 * MiB, 0)) return 1;
+    return 0;
+  }
   if (strcmp(s, "S10") == 0) {
     /* one segment filled to its end with 1 MiB pages (the last pages use the last field of the segment's commit / purge masks) */
     const mi_segment_t* seg0 = NULL;
@@ -901,9 +920,10 @@ static int build_start(const char* s) {
     if (blk == NULL) { fprintf(stderr, "cannot pre-claim arena blocks\n"); return 2; }
     return 0;
   }
-  if (s[0] == 'S' && s[1] == 'a') {
-    /* Sa<shape>: shape = delta index (0..3) * 16 + size index (0..3) * 4 + exclusive * 2 + committed */
-    int shape = atoi(s + 2);
+  if (s[0] == 'S' && (s[1] == 'a' || s[1] == 'n')) {
+    /* Sa<shape>: shape = delta index (0..3) * 16 + size index (0..3) * 4 + exclusive * 2 + committed;
+       Sn<shape>: the same, registered for NUMA node 1 (the allocating threads run on node 0: a "foreign" arena) */
+    int shape = atoi(s + 2); const int numa = (s[1] == 'n' ? 1 : -1);
     static const size_t deltas[4] = { 0, 4096, 1 * MiB, 32 * MiB - 4096 };
     static const size_t sizes[4] = { 64 * MiB, 95 * MiB, 96 * MiB, 100 * MiB };
     size_t delta = deltas[(shape >> 4) & 3], size = sizes[(shape >> 2) & 3]; int excl = (shape >> 1) & 1, committed = shape & 1;
@@ -921,7 +941,7 @@ static int build_start(const char* s) {
     *(volatile uint64_t*)(given + size) = 0xC0FFEE0000000000ULL ^ (uintptr_t)(given + size);
     g_map_lo = (uintptr_t)base; g_map_hi = (uintptr_t)given + size + 4096; g_given_lo = (uintptr_t)given; g_given_hi = (uintptr_t)given + size;
     vf_os_adopt(given, size, committed ? VF_P_RW : VF_P_NONE);
-    if (!mi_manage_os_memory_ex(given, size, committed, false, true, -1, excl, &g_arena)) { fprintf(stderr, "mi_manage_os_memory_ex refused the region\n"); return 2; }
+    if (!mi_manage_os_memory_ex(given, size, committed, false, true, numa, excl, &g_arena)) { fprintf(stderr, "mi_manage_os_memory_ex refused the region\n"); return 2; }
     size_t asz = 0; void* astart = mi_arena_area(g_arena, &asz);
     g_arena_lo = (uintptr_t)astart; g_arena_hi = g_arena_lo + asz; g_arena_excl = excl;
     if (g_arena_lo < (uintptr_t)given || g_arena_hi > (uintptr_t)given + size) { vf_violation("outside-given-bounds", "the arena [%p,+%zu) is not inside the given range [%p,+%zu)", astart, asz, given, size); return 1; }
